@@ -80,7 +80,7 @@ class Row:
         # data[:, pad:pad+w, :] = image
         assert isinstance(key, tuple) and len(key) == 3 and key[0] == slice(None) and key[2] == slice(None)
         sl = key[1]
-        self.canvas.placed[self.r] = (image, sl.start, sl.stop)
+        self.canvas.placed.setdefault(self.r, []).append((image, sl.start, sl.stop))      # layers: a reused buffer keeps what was written before
 
 
 class Canvas:
@@ -104,7 +104,7 @@ class Canvas:
         # batch_data[:, :, :max]
         assert isinstance(key, tuple) and key[0] == slice(None) and key[1] == slice(None) and isinstance(key[2], slice) and key[2].start is None
         c = Canvas(self.rows, self.h, core.smin2(self.w, key[2].stop))
-        c.placed = dict(self.placed)
+        c.placed = {r: list(v) for r, v in self.placed.items()}
         return c
 
 
@@ -179,6 +179,7 @@ def run_task(task, patches=None):
     b = z3.Int('batch_size')
     K = 'C07:%s:' % task['mode']
     calls = []
+    state_stale = []
 
     def case(m_, **kw):
         c = {'mode': task['mode'], 'n': n, 'flavour': flavour, 'widths': [mv(m_, S(w)) for w in ws], 'batch_size': mv(m_, S(b))}
@@ -205,7 +206,16 @@ def run_task(task, patches=None):
             calls.append(batch_data)
             trs, lgs = [], []
             for r in range(batch_data.rows):
-                img, start, stop = batch_data.placed[r]
+                layers = batch_data.placed.get(r, [])
+                if not layers:
+                    trs.append(('Tr', None, 0))
+                    lgs.append(Frames(Img(-1, 0), 0, 0, batch_data.w // SS))
+                    continue
+                img, start, stop = layers[-1]
+                # pixels of an earlier write that the last write does not cover are still in the row: the network sees them
+                stale = [core.zb((S(core.lift(s0)) < start) | (S(core.lift(e0)) > stop)) for (_i, s0, e0) in layers[:-1]]
+                if stale:
+                    state_stale.append(z3.Or(*stale))
                 vis_end = core.smin2(stop, batch_data.w)          # the part of the image that is inside the tensor
                 trs.append(('Tr', img.i, vis_end - start))
                 lgs.append(Frames(img, start, vis_end, batch_data.w // SS))
@@ -215,6 +225,7 @@ def run_task(task, patches=None):
 
     def body():
         del calls[:]
+        del state_stale[:]
         core.assume(z3.And(b >= 1, b <= 16))
         for w in ws:
             core.assume(z3.And(w >= 1, w <= 600 * b))
@@ -249,6 +260,8 @@ def run_task(task, patches=None):
             H.fail(K + 'length', 'result lists do not have one entry per input line', lambda m_: case(m_))
             continue
         maxw = 480 * b
+        if state_stale:
+            H.claim(z3.Not(z3.Or(*state_stale)), K + 'stale-pixels', 'a batch row still holds pixels of a line written into it for an earlier batch: the result depends on the other lines', lambda m_: case(m_))
         for i in range(n):
             w = ws[i]
             t = trs[i]
